@@ -28,6 +28,9 @@ EXTRA = {
     "tw": dict(decl="u: U", gen=["U"], where=["U: Bound + ::core::marker::Send"], arg="4i64", ptr="i64"),
     "cn": dict(decl="c: [u8; N]", gen=["const N: usize"], arg="[0u8; 2]", ptr="[u8; 2]"),
     "it": dict(decl="it: impl Bound + ::core::marker::Send", arg="5i64", ptr="i64"),
+    # two named lifetimes related by an outlives predicate: in the where clause / inline
+    "lw": dict(decl="r: &'b X, r2: &'c X", lts=["'b", "'c"], where=["'c: 'b"], arg="&x, &x", ptr="&'b X, &'c X", ref=True, no_ptr=True),
+    "li": dict(decl="r: &'b X, r2: &'c X", lts=["'b", "'c: 'b"], arg="&x, &x", ptr="&'b X, &'c X", ref=True, no_ptr=True),
     # parameter patterns (C16 owns these; here they ride along with the other signature features)
     "dp": dict(decl="(p, q): (i64, i64)", arg="(6, 7)", ptr="(i64, i64)"),
     "mb": dict(decl="mut m: i64", arg="8", ptr="i64"),
@@ -67,7 +70,7 @@ def enumerate_states(tier):
             continue            # mock_api only switches unimock on with the crate feature; off it is covered by C04/C10
         if tier != "thorough" and feature and o in ("", "?Send") and q not in ("", "async"):
             continue
-        if tier != "thorough" and any(x in ("dp", "mb", "wl") for x in w) and (o != "" or deps not in ("impl", "nodeps", "conc")):
+        if tier != "thorough" and any(x in ("dp", "mb", "wl", "lw", "li") for x in w) and (o != "" or deps not in ("impl", "nodeps", "conc", "gi")):
             continue            # the feature only matters through the mock options
         key = "g_%s_%s_%s_%s_%s_%s" % (deps, "_".join(w) or "0", {"": "s", "async": "a", "unsafe": "u", 'extern "C"': "e", 'unsafe extern "C"': "ue", "async unsafe": "au"}[q],
                                        r, {"": "p", "mock": "m", "mockall": "ma", "?Send": "ms"}[o], "fon" if feature else "foff")
@@ -166,7 +169,7 @@ def render(s):
         else:
             L.append("        let %s = { let app = %s; format!(\"{:?}\", %s) };" % (name, mkapp, call(path, recv_ref, is_trait)))
     # fn-pointer witnesses (sync) / Output ascription (async)
-    if not asy and R["ptr"] is not None:
+    if not asy and R["ptr"] is not None and not any(EXTRA[x].get("no_ptr") for x in w):
         lts = (["'a"] if ("'a" in R["ptr"] or R.get("named_a")) else []) + (["'b"] if any(EXTRA[x].get("ref") for x in w) else [])
         recv_ptr = (appty if byval else "&%s%s" % ("'a " if "'a" in lts else "", appty))
         extra_ptr = [EXTRA[x]["ptr"] for x in w]
